@@ -95,7 +95,8 @@ func (w *world) setupStaking() error {
 	return nil
 }
 
-var stakeAmounts = []int64{1, 1000, 500000, 999999999, 1000000000, 1000000001}
+// amounts in base units (18 decimals): tiny ones and realistic ones above 2^63 and 2^64
+var stakeAmounts = []string{"1", "1000", "500000", "999999999", "1000000000", "1000000001", "20000000000000000000", "18446744073709551621", "9223372036854775808", "3000000000000000000"}
 
 func (w *world) opStake(op kernel.Op) {
 	if w.forwarder == (common.Address{}) {
@@ -111,7 +112,7 @@ func (w *world) opStake(op kernel.Op) {
 		return w.valopers[kernel.Mod(sel, len(w.valopers))]
 	}
 	si.val, si.val2 = val(op.Arg(2)), val(op.Arg(2)+1)
-	si.amount = big.NewInt(stakeAmounts[kernel.Mod(op.Arg(3), len(stakeAmounts))])
+	si.amount, _ = new(big.Int).SetString(stakeAmounts[kernel.Mod(op.Arg(3), len(stakeAmounts))], 10)
 	if op.Arg(3)%11 == 10 {
 		si.amount = new(big.Int).Lsh(big.NewInt(1), 255)
 	}
@@ -323,7 +324,8 @@ func (w *world) afterStake(in *intent, ok bool, vmErr, log string, pre, post *sn
 			return tokens
 		}
 		neg := tokens.Sign() < 0
-		v := r.MulInt(sdk.NewIntFromBigInt(new(big.Int).Abs(tokens))).TruncateInt().BigInt()
+		// the staking module's own conversion: shares = amount * delegator shares / tokens
+		v := r.shares.MulInt(sdk.NewIntFromBigInt(new(big.Int).Abs(tokens))).QuoInt(r.tokens).TruncateInt().BigInt()
 		if neg {
 			v.Neg(v)
 		}
